@@ -24,6 +24,24 @@ def shapes(T, x, s1, s2):
     ]
 
 
+def three_leaf_shapes(T, x, s1, s2):
+    """every tree of three leaves (x and two supported leaves) over and/or/',' with x at each position, and their negations:
+    special cases for idioms (`COND -prune -o REST` and the like) show up as shapes"""
+    out = []
+    names = {"And": "&", "Or": "|", "List": ","}
+    for pos in range(3):
+        leaves = [s1, s2]
+        leaves.insert(pos, x)
+        tag = ["S", "S"]
+        tag.insert(pos, "x")
+        for o1 in ("And", "Or", "List"):
+            for o2 in ("And", "Or", "List"):
+                out.append(("(%s%s%s)%s%s" % (tag[0], names[o1], tag[1], names[o2], tag[2]), T.op(o2, T.op(o1, leaves[0], leaves[1]), leaves[2])))
+                out.append(("%s%s(%s%s%s)" % (tag[0], names[o1], tag[1], names[o2], tag[2]), T.op(o1, leaves[0], T.op(o2, leaves[1], leaves[2]))))
+    out += [("!" + n, T.op("Not", t)) for n, t in out[::3]]
+    return out
+
+
 def run(ctx, rep, tier):
     B = Bench(ctx, rep)
     known = {k["class"] for k in vlib.known_for(PID)}
@@ -43,6 +61,9 @@ def run(ctx, rep, tier):
     shp = shapes(T, (xval, "@"), s1, s2)
     if tier == "quick":
         shp = [x_ for x_ in shp if x_[0] not in ("!(S|x)&S", "S|(S&!x)", "x,S")]
+    three = three_leaf_shapes(T, (xval, "@"), s1, s2)
+    light = {n_ for n_, _ in three}           # for these only Err <=> unsupported and no-panic are decided (no error text / read-back)
+    shp = shp + three
     for sname, (tree, sx) in shp:
         t0 = time.time()
         r = compile_tree(B, tree)
@@ -56,6 +77,9 @@ def run(ctx, rep, tier):
             if res == z3.sat:
                 i = m.eval(sel, model_completion=True).as_long()
                 report(B, rep, cname, sx.replace("@", sexprs[i]), vocab[i], known)
+        if sname in light:
+            samples.append(dict(shape=sname, vocabulary=len(vocab), outcomes=len(r.alts), seconds=round(time.time() - t0, 2)))
+            continue
         # the error must name the construct: one witness per unsupported construct (the selector fixes the tree)
         err_alts = []
         for g, v in r.alts:
